@@ -1,7 +1,7 @@
 // C11 rpc_sv: the real rpc::Stub (out-of-order engine) over a mock stream, N concurrent callers on one vCPU, virtual clock.
 // The script (explorer choices) decides: permutation of the responses on the wire, arrival time of every response header and of its
 // body (immediately / after the short deadline / after the longer deadline), and one protocol fault (unknown tag, duplicate tag,
-// EOF after a header, bad magic). Oracle: a successful call got f(its own request); a failed call got -1; and the mock stream
+// EOF after a header, EOF inside a body, bad magic). Oracle: a successful call got f(its own request); a failed call got -1; and the mock stream
 // refuses to copy response bytes into memory that does not belong to a call that is still in progress.
 #include "sv_rt.h"
 #include <photon/rpc/rpc.h>
@@ -37,7 +37,7 @@ static void build_script() {
     int N = W->N;
     int perm = pmc_choose(N == 2 ? 2 : 6, PMC_PROG, 0, "response order");
     std::vector<int> order; { std::vector<int> v; for (int i = 0; i < N; i++) v.push_back(i); for (int k = 0; k < perm; k++) std::next_permutation(v.begin(), v.end()); order = v; }
-    W->fault = pmc_choose(5, PMC_ENV, 1, "fault: none/unknown-tag/duplicate-tag/eof-after-header/bad-magic");
+    W->fault = pmc_choose(6, PMC_ENV, 1, "fault: none/unknown-tag/duplicate-tag/eof-after-header/bad-magic/eof-inside-body");
     uint64_t t0 = sv::vnow, t = t0;
     static const uint64_t DELAY[3] = {0, T_SHORT + 20, T_LONG + 20};
     auto header_for = [&](const Req& r, uint64_t tag, uint32_t size, bool badmagic) {
@@ -55,6 +55,10 @@ static void build_script() {
         uint64_t tb = t + (db == 0 ? 0 : db == 1 ? 120 : 220);
         if (db == 0) W->segs.push_back({hdr + body, t}); else { W->segs.push_back({hdr, t}); W->segs.push_back({body, tb}); t = tb; }
         if (W->fault == 3 && k == 0) { W->segs.resize(W->segs.size() - (db == 0 ? 0 : 1)); if (db == 0) W->segs.back().bytes = hdr; W->segs.push_back({"", t}); break; }   // EOF marker
+        if (W->fault == 5 && k == 0) {      // the peer closes after the header and the first body byte(s)
+            W->segs.resize(W->segs.size() - (db == 0 ? 1 : 2));
+            W->segs.push_back({hdr + body.substr(0, body.size() / 2), t}); W->segs.push_back({"", t}); break;
+        }
         if (W->fault == 2 && k == 0) { W->segs.push_back({hdr + body, t}); }                                                         // same tag once more
         W->log += char('0' + order[k]); W->log += char('a' + dh); W->log += char('a' + db);
     }
